@@ -73,7 +73,10 @@ def discover_harnesses(unit: dict, tier: str):
     runs in the thorough tier; `_quick` only in quick."""
     names = []
     for m in unit.get("mods", []):
-        txt = open(os.path.join(KANI_DIR, m["harness"])).read()
+        txt = open(os.path.join(KANI_DIR, m["harness"]) if not os.path.isabs(m["harness"]) else m["harness"]).read()
+        for inc in re.findall(r'include!\("([^"]+\.rs)"\)', txt):
+            if os.path.exists(inc):
+                txt += "\n" + open(inc).read()
         for mm in re.finditer(r"#\[kani::proof(?:_for_contract\([^)]*\))?\]\s*(?:#\[[^\]]*\]\s*)*(?:pub\s+)?fn\s+(\w+)", txt):
             n = mm.group(1)
             if n.endswith("_thorough") and tier != "thorough":
@@ -166,10 +169,12 @@ def run_unit(repo_dir: str, unit: dict, tier: str, jobs: int = 8):
         info["ice"] = True
     if re.search(r"^error(\[E\d+\])?:", err, re.M) and not results:
         info["compile_error"] = True
+        errs = [m.group(0) for m in re.finditer(r"^error(\[E\d+\])?:.*(?:\n.*){0,6}", err, re.M)]
+        info["raw_tail"] = "\n".join(errs)[:3000]
     return info
 
 
-def playback(repo_dir: str, unit: dict, harness: str, pid: str, failed: dict, raw: str):
+def playback(repo_dir: str, unit: dict, harness: str, pid: str, failed: dict, raw: str, skip: bool = False):
     """Re-run one failing harness with concrete playback and store a replay
     file.  Returns (path, has_concrete_input)."""
     os.makedirs(REPLAY_DIR, exist_ok=True)
@@ -177,7 +182,10 @@ def playback(repo_dir: str, unit: dict, harness: str, pid: str, failed: dict, ra
     cmd = ["cargo", "kani", "-p", unit["crate"], "-Z", "function-contracts", "-Z", "stubbing",
            "-Z", "concrete-playback", "--concrete-playback=print", "--harness", harness, "--output-format", "terse"]
     cmd += unit.get("kani_args", [])
-    rc, out, err, wall, to = run(cmd, cwd=repo_dir, env=tool_env(), timeout=900)
+    if skip:
+        out = ""
+    else:
+        rc, out, err, wall, to = run(cmd, cwd=repo_dir, env=tool_env(), timeout=900)
     test = None
     m = re.search(r"```\n(.*?)```", out, re.S)
     if m:
